@@ -210,6 +210,7 @@ type world struct {
 	votedH     map[string]map[uint64]uint64 // oracle address -> event nonce -> id (content + reported height) of the claim it voted for
 	curH       uint64                       // id of the claim the current op submits
 	curClaim   bool
+	curFP      string // the whole claim the current op submits (without the submitting bridger)
 	lostRefund map[uint64]int64 // refund records (outgoing bridge calls) of event nonces that a genesis export/import dropped
 	saved      *savedWorld
 	// round 4
@@ -218,6 +219,9 @@ type world struct {
 	asTx      bool // the next bond / add-delegate / unbond op is delivered as a signed transaction in a block of its own
 	lostCalls map[[2]uint64]bool // result claims whose outgoing bridge calls a genesis export / import dropped
 	consumed  map[[2]uint64]bool // result claims whose outgoing bridge call was consumed by their execution
+	// round 5
+	sender2 string               // another external account (lying bridgers report it as sender / tx origin)
+	fp      map[[2]uint64]string // (event nonce, claim id) -> the whole claim as submitted, without the submitting bridger
 }
 
 // savedWorld: what `save` remembers (small-scope enumeration): the store branch point and the monitor state
@@ -253,7 +257,7 @@ func newWorld(t *testing.T, s *hx.Suite, out *hx.Out, rng *rand.Rand, chain stri
 		gov:      authtypes.NewModuleAddress(govtypes.ModuleName).String(),
 		oracleID: map[string]int{}, bridgerID: map[string]int{}, extID: map[string]int{}, hashID: map[string]int{},
 		specs: map[[2]uint64]claimSpec{}, observedAt: map[uint64]string{}, executed: map[uint64]bool{},
-		lostCalls: map[[2]uint64]bool{}, consumed: map[[2]uint64]bool{}, rebonded: map[int]bool{}, reported: map[string]bool{}, unbonded: map[int]bool{}, votedH: map[string]map[uint64]uint64{}, lostRefund: map[uint64]int64{}, touched: map[common.Address]bool{}, touchedCode: map[common.Address]bool{}, former: map[int][]int{}, pr: sdk.DefaultPowerReduction, multiple: mult}
+		fp: map[[2]uint64]string{}, lostCalls: map[[2]uint64]bool{}, consumed: map[[2]uint64]bool{}, rebonded: map[int]bool{}, reported: map[string]bool{}, unbonded: map[int]bool{}, votedH: map[string]map[uint64]uint64{}, lostRefund: map[uint64]int64{}, touched: map[common.Address]bool{}, touchedCode: map[common.Address]bool{}, former: map[int][]int{}, pr: sdk.DefaultPowerReduction, multiple: mult}
 	w.threshold = w.pr.MulRaw(thrUnits)
 	rich := sdk.NewCoin(fxtypes.DefaultDenom, w.pr.MulRaw(100_000_000))
 	poor := -1 // one oracle account that can pay the minimum stake twice but not more: larger bonds / add-delegates fail in the bank
@@ -290,6 +294,7 @@ func newWorld(t *testing.T, s *hx.Suite, out *hx.Out, rng *rand.Rand, chain stri
 	}
 	w.fxToken = helpers.GenExternalAddr(chain)
 	w.sender = helpers.GenExternalAddr(chain)
+	w.sender2 = helpers.GenExternalAddr(chain)
 	w.recv = helpers.GenAccAddress()
 	w.caller = helpers.GenHexAddress()
 	s.MintToken(w.caller.Bytes(), rich)
@@ -749,7 +754,8 @@ func (w *world) monitors(before pre) {
 				same := sdkmath.ZeroInt()
 				differ := 0
 				for v := range seen {
-					if hv, ok := w.votedH[v][a.nonce]; ok && hv == w.curH {
+					// (the id AND the whole claim as it was submitted: every field but the submitting bridger)
+					if hv, ok := w.votedH[v][a.nonce]; ok && hv == w.curH && w.fp[[2]uint64{a.nonce, hv}] == w.curFP {
 						if o, found := w.k.GetOracle(ctx, sdk.MustAccAddressFromBech32(v)); found {
 							same = same.Add(w.power(o))
 						}
@@ -758,7 +764,7 @@ func (w *world) monitors(before pre) {
 					}
 				}
 				if differ > 0 && same.LT(req) {
-					w.violate("C02", fmt.Sprintf("attestation observed without a 66%% quorum of oracles that voted for that very event: %d of its %d voters claimed something else for event nonce %d (other content or other external block height) and were tallied together; power of the voters of the event that took effect %s < required %s of recorded total %s", differ, len(seen), a.nonce, same, req, total))
+					w.violate("C02", fmt.Sprintf("attestation observed without a 66%% quorum of oracles that voted for that very event: %d of its %d voters claimed something else for event nonce %d (other content — another value / call data / memo / tx origin / amount / sender … — or other external block height) and were tallied together; power of the voters of the event that took effect %s < required %s of recorded total %s", differ, len(seen), a.nonce, same, req, total))
 				}
 				if differ == 0 {
 					w.out.Count("observed:all-voters-same-event")
@@ -836,7 +842,150 @@ func (w *world) spec(n, h uint64, wantKind string) claimSpec {
 }
 
 func (w *world) mkClaim(n, hid uint64, sp claimSpec, bridger string) crosschaintypes.ExternalClaim {
-	ext := 1000 + n + hid/4 // a bridger that saw the event at another external height (lagging node, re-org) reports another event
+	c := w.mkBaseClaim(n, hid, sp, bridger)
+	if lieOf(hid) != 0 && !w.applyLie(c, n, lieOf(hid)) {
+		panic(fmt.Sprintf("claim id %d: lie %d does not apply (ids must be normalised with normH first)", hid, lieOf(hid)))
+	}
+	w.fp[[2]uint64{n, hid}] = w.fingerprint(c)
+	return c
+}
+
+// claim ids: h%4 = content, (h/4)%2 = the external height it is reported at is shifted by one, h/8 = how a lying (or faulty)
+// bridger tells the same event differently (round 5): see applyLie
+func lieOf(h uint64) uint64   { return h / 8 }
+func extOf(n, h uint64) uint64 { return 1000 + n + (h/4)%2 }
+
+// normH: the id the claim (n, h) of this spec really has: a lie that does not apply to the claim type leaves the base claim
+func (w *world) normH(n, h uint64, sp claimSpec) uint64 {
+	if lieOf(h) == 0 {
+		return h
+	}
+	c := w.mkBaseClaim(n, h, sp, "")
+	k := lieKinds(c)
+	if k == 0 {
+		return h % 8
+	}
+	h = h%8 + 8*((lieOf(h)-1)%k+1) // one id per distinct lie
+	if !w.applyLie(c, n, lieOf(h)) {
+		return h % 8
+	}
+	return h
+}
+
+// lieKinds: how many different lies applyLie knows for this claim type
+func lieKinds(c crosschaintypes.ExternalClaim) uint64 {
+	switch c.(type) {
+	case *crosschaintypes.MsgBridgeCallClaim:
+		return 5
+	case *crosschaintypes.MsgBridgeCallResultClaim, *crosschaintypes.MsgBridgeTokenClaim:
+		return 2
+	case *crosschaintypes.MsgSendToFxClaim, *crosschaintypes.MsgOracleSetUpdatedClaim:
+		return 1
+	}
+	return 0
+}
+
+// fingerprint: the whole claim except who submits it (proto bytes with the bridger field blanked)
+func (w *world) fingerprint(c crosschaintypes.ExternalClaim) string {
+	var bz []byte
+	var err error
+	switch m := c.(type) {
+	case *crosschaintypes.MsgBridgeCallClaim:
+		x := *m
+		x.BridgerAddress = ""
+		bz, err = x.Marshal()
+	case *crosschaintypes.MsgBridgeCallResultClaim:
+		x := *m
+		x.BridgerAddress = ""
+		bz, err = x.Marshal()
+	case *crosschaintypes.MsgSendToFxClaim:
+		x := *m
+		x.BridgerAddress = ""
+		bz, err = x.Marshal()
+	case *crosschaintypes.MsgSendToExternalClaim:
+		x := *m
+		x.BridgerAddress = ""
+		bz, err = x.Marshal()
+	case *crosschaintypes.MsgBridgeTokenClaim:
+		x := *m
+		x.BridgerAddress = ""
+		bz, err = x.Marshal()
+	case *crosschaintypes.MsgOracleSetUpdatedClaim:
+		x := *m
+		x.BridgerAddress = ""
+		bz, err = x.Marshal()
+	}
+	if err != nil || bz == nil {
+		w.t.Fatalf("fingerprint %T: %v", c, err)
+	}
+	return fmt.Sprintf("%T/%x", c, bz)
+}
+
+// callDataOf: call data of the bridge-call claims of event nonce n: hex that ENDS IN TWO DECIMAL DIGITS (first one non-zero),
+// so that the boundary between the data and the value that follows it in the claim identity can be moved
+func callDataOf(n uint64) string { return fmt.Sprintf("c0de%02d", 10+n%90) }
+
+// applyLie rewrites the base claim into what a lying bridger submits for the same event nonce: exactly ONE field that is
+// part of the claim's identity differs (memo / tx origin / token amount / call data / sender / cause / name / decimals / a
+// member's power), or the BOUNDARY between two adjacent identity fields is moved while their concatenation stays the same
+// (the tail of the call data becomes the head of the value).  Every lie is a valid message (passes ValidateBasic) and a
+// different event: it must never be tallied together with the votes for the base claim.  false: no such lie for this type.
+func (w *world) applyLie(c crosschaintypes.ExternalClaim, n, lie uint64) bool {
+	switch m := c.(type) {
+	case *crosschaintypes.MsgBridgeCallClaim:
+		switch (lie - 1) % 5 {
+		case 0:
+			m.Memo = "6c6965"
+		case 1:
+			m.TxOrigin = w.sender2
+		case 2:
+			// data "c0deNN" value 1  ->  data "c0de" value NN1
+			if len(m.Data) < 2 || !m.Value.Equal(sdkmath.OneInt()) {
+				return false
+			}
+			tail := m.Data[len(m.Data)-2:]
+			v, ok := sdkmath.NewIntFromString(tail + m.Value.String())
+			if !ok || tail[0] == '0' {
+				return false
+			}
+			m.Data, m.Value = m.Data[:len(m.Data)-2], v
+		case 3:
+			m.Amounts = []sdkmath.Int{m.Amounts[0].AddRaw(1)}
+		default:
+			m.Data += "ff"
+		}
+		return true
+	case *crosschaintypes.MsgBridgeCallResultClaim:
+		if (lie-1)%2 == 0 {
+			m.TxOrigin = w.sender2
+		} else {
+			m.Cause += "ee"
+		}
+		return true
+	case *crosschaintypes.MsgSendToFxClaim:
+		m.Sender = w.sender2
+		return true
+	case *crosschaintypes.MsgBridgeTokenClaim:
+		if (lie-1)%2 == 0 {
+			m.Name = "U"
+		} else {
+			m.Decimals = 6
+		}
+		return true
+	case *crosschaintypes.MsgOracleSetUpdatedClaim:
+		if m.OracleSetNonce != 0 || len(m.Members) == 0 {
+			return false // claims about a stored oracle set: whether their handler panics is decided on the spec
+		}
+		ms := append([]crosschaintypes.BridgeValidator{}, m.Members...)
+		ms[0].Power += 500
+		m.Members = ms
+		return true
+	}
+	return false
+}
+
+func (w *world) mkBaseClaim(n, hid uint64, sp claimSpec, bridger string) crosschaintypes.ExternalClaim {
+	ext := extOf(n, hid) // a bridger that saw the event at another external height (lagging node, re-org) reports another event
 	h := hid % 4
 	switch {
 	case sp.kind == "r":
@@ -867,7 +1016,7 @@ func (w *world) mkClaim(n, hid uint64, sp claimSpec, bridger string) crosschaint
 		}
 		return &crosschaintypes.MsgBridgeCallClaim{ChainName: w.chain, BridgerAddress: bridger, EventNonce: n, BlockHeight: ext,
 			Sender: w.sender, Refund: sp.refund, TokenContracts: []string{token}, Amounts: []sdkmath.Int{sdkmath.NewInt(callAmount)},
-			To: crosschaintypes.ExternalAddrToStr(w.chain, sp.contract.Bytes()), Data: "", Value: sdkmath.OneInt(), Memo: "", TxOrigin: w.sender}
+			To: crosschaintypes.ExternalAddrToStr(w.chain, sp.contract.Bytes()), Data: callDataOf(n), Value: sdkmath.OneInt(), Memo: "", TxOrigin: w.sender}
 	case sp.kind == "o":
 		token := sp.token
 		if h%3 == 2 || (h == 0 && n%5 == 0) {
@@ -925,6 +1074,10 @@ func (w *world) opClaim(wrapper, inner int, n, h uint64, kind string) string {
 	if strings.HasPrefix(sp.kind, "s:") && len(sp.members) == 0 {
 		return "skip"
 	}
+	h = w.normH(n, h, sp)
+	if lieOf(h) != 0 {
+		w.out.Count(fmt.Sprintf("claim:lying-variant:%s:lie=%d", sp.kind[:1], lieOf(h)))
+	}
 	claim := w.mkClaim(n, h, sp, ia.String())
 	w.hashID[hex.EncodeToString(claim.ClaimHash())] = int(h)
 	anyv, err := codectypes.NewAnyWithValue(claim)
@@ -952,7 +1105,7 @@ func (w *world) opClaim(wrapper, inner int, n, h uint64, kind string) string {
 	}
 	before := w.snapshot()
 	nAtts := len(w.atts())
-	w.curH, w.curClaim = h, true
+	w.curH, w.curClaim, w.curFP = h, true, w.fingerprint(claim)
 	defer func() { w.curClaim = false }()
 	label := w.kindLabel(sp)
 	obsBefore := ""
@@ -1047,7 +1200,7 @@ func (w *world) opClaim(wrapper, inner int, n, h uint64, kind string) string {
 	if res == "ok" && wrapper != inner {
 		w.out.Count("claim:accepted-with-wrapper!=inner(in-process)")
 	}
-	w.out.Emit(fmt.Sprintf("claim %d %d %d %d %s %d", wrapper, inner, n, h, label, 1000+n+h/4), res+" "+w.observe())
+	w.out.Emit(fmt.Sprintf("claim %d %d %d %d %s %d", wrapper, inner, n, h, label, extOf(n, h)), res+" "+w.observe())
 	w.monitors(before)
 	return res
 }
@@ -1599,6 +1752,10 @@ func (w *world) genTree(n uint64) *callNode {
 				node.o = 'f'
 				return node
 			}
+			if !c.Value.Equal(sdkmath.OneInt()) {
+				w.out.Count("exec:plan:callback-with-value!=1(contract-stops)")
+				return node // the target only acts at balance 1 (see reentrantCode)
+			}
 		case *crosschaintypes.MsgBridgeCallResultClaim:
 			if !w.k.HasOutgoingBridgeCall(w.s.Ctx, c.Nonce) {
 				node.o = 'f' // unknown outgoing bridge call: the handler panics
@@ -1712,6 +1869,10 @@ func (w *world) randomClaim() {
 	if w.rng.Intn(7) == 0 {
 		h += 4
 	}
+	// the same event told differently by a lying bridger (one identity field differs / a field boundary is moved)
+	if w.rng.Intn(8) == 0 {
+		h += 8 * uint64(1+w.rng.Intn(5))
+	}
 	wrapper := inner
 	if w.rng.Intn(25) == 0 {
 		wrapper = bridgerBase + w.rng.Intn(len(w.bridgers))
@@ -1798,6 +1959,9 @@ func (w *world) randomOp() {
 	case 3:
 		res := w.opGenesis()
 		w.out.Count("genesis(random):" + res)
+		return
+	case 4, 5, 6:
+		w.scenarioLyingOracle()
 		return
 	}
 	switch {
